@@ -7,6 +7,52 @@ from ..txmodel import TxShape
 TITLE = 'synchronous client returns only the reply to its own request'
 
 
+def r8_packet_built_in_this_call(ck, cx):
+    """_transact sends framer.buildPacket(request) evaluated in this very call: a frame cached on the request (or anywhere else)
+    keeps the transaction id of an earlier execute()"""
+    ck.rule('R8', 'the bytes handed to _send in _transact are the result of framer.buildPacket(request) evaluated in the same call')
+    tm = cx.idx.cls('pymodbus.transaction.ModbusTransactionManager')
+    f = cx.method(tm, '_transact')
+    ck.saw('functions', f.qn)
+    req = f.params[1]
+    n = 0
+    for p in cx.enum(f, tm, max_depth=0):
+        annotate(p, heap=False)
+        sends = [e for e in p.ev if e.kind == 'call' and callee_name(e.node) in ('_send', 'sendPacket')]
+        for e in sends:
+            n += 1
+            a = e._sub.args[0] if e._sub.args else None
+            ok = isinstance(a, ast.Call) and callee_name(a) == 'buildPacket' and a.args and U(a.args[0]) == req
+            built_here = any(x.kind == 'call' and callee_name(x.node) == 'buildPacket' for x in p.ev[:p.ev.index(e)])
+            ck.ob('R8', f.qn, 'sent bytes = buildPacket(request) of this call', ok and built_here, detail='sent-packet-source %s' % (U(a)[:50] if a is not None else None),
+                  loc=cx.floc(f, e.node), message='_transact can send `%s` instead of a packet built from the request in this call: a request object that is '
+                                                 'executed again goes out with the transaction id (and contents) of its first execution' % (U(a)[:70] if a is not None else None))
+    ck.floor('R8', n, 1, 'send sites of _transact')
+
+
+def r9_receive_accumulator_is_local(ck, cx, rule='R9'):
+    """what ModbusTcpClient._recv returns is made of bytes received by this call only: it does not return (or build on) an
+    instance attribute that survives a failed call"""
+    ck.rule(rule, 'the TCP client read returns only bytes received in this call (no accumulator kept on the instance)')
+    c = cx.idx.cls('pymodbus.client.sync.ModbusTcpClient')
+    f = cx.method(c, '_recv')
+    ck.saw('functions', f.qn)
+    n = 0
+    for p in cx.enum(f, c, max_depth=0):
+        if p.exit and p.exit[0] == 'exc':
+            continue
+        annotate(p, heap=False)
+        r = ret_expr(p)
+        if r is None:
+            continue
+        n += 1
+        attrs = sorted({U(x) for x in ast.walk(r) if isinstance(x, ast.Attribute) and U(x.value) == 'self' and x.attr not in ('socket', 'timeout')})
+        ck.ob(rule, f.qn, 'returned bytes do not come from instance state', not attrs, detail='recv-returns-instance-state %s' % attrs, loc=cx.floc(f),
+              message='ModbusTcpClient._recv returns `%s`, built on %s which outlives the call: bytes left by a call that failed half-way are '
+                      'prepended to the reply of the next transaction' % (U(r)[:60], attrs))
+    ck.floor(rule, n, 1, 'return paths of the TCP read')
+
+
 def r6_unknown_size_read(ck, cx):
     """ModbusTcpClient._recv(size=None) -- used when the reply length is unknown (a unit that did not answer last time) --
     must keep reading until its deadline: a return as soon as *something* has arrived hands a late reply of the previous
@@ -168,6 +214,8 @@ def run(ck, tier):
     ck.ob('R5', g.qn, 'getTransaction(tid) removes the entry it returns', okp, detail='reply-not-removed', loc=cx.floc(g),
           message='DictTransactionManager.getTransaction leaves the reply in the table: a later transaction that receives nothing returns the older reply as its answer')
     ck.guard(r6_unknown_size_read, ck, cx)
+    ck.guard(r8_packet_built_in_this_call, ck, cx)
+    ck.guard(r9_receive_accumulator_is_local, ck, cx)
     from .c13 import r6_short_first_read_is_a_fault
     ck.guard(r6_short_first_read_is_a_fault, ck, cx, 'R7')
     ck.assume('correctness of decoded values is C01/C02; behaviour over all reply contents and histories is not decided')
